@@ -158,29 +158,33 @@ Definition has_module (e : env) (s : schema) (m : N) : res bool :=
   | Some j => if amem N.eqb j (s_type s) then inl true else inr ELookup
   end.
 
-(* _update_obj_name(obj_id, sclass, old_name, new_name) *)
-Definition upd_name (e : env) (s : schema) (oid : id) (c : cls) (ci : cinfo)
-           (old new : option name) : res names3 :=
-  r1 <- match old with
-        | None => inl (s_name s, s_short s, s_glob s)
-        | Some o =>
-            r <- (if c_qual ci then
-                    if amem name_eqb o (s_name s) then inl (adel name_eqb o (s_name s), s_glob s)
-                    else inr EKey
-                  else
-                    if amem ck_eqb (c, o) (s_glob s) then inl (s_name s, adel ck_eqb (c, o) (s_glob s))
-                    else inr EKey) ;;
-            if c_sn ci then
-              let key := (c, shortname e o) in
-              match aget ck_eqb key (s_short s) with
-              | None => inr EKey
-              | Some ids =>
-                  let ids' := srem oid ids in
-                  inl (fst r, (if isnil ids' then adel ck_eqb key (s_short s)
-                               else aset ck_eqb key ids' (s_short s)), snd r)
-              end
-            else inl (fst r, s_short s, snd r)
-        end ;;
+(* _update_obj_name(obj_id, sclass, old_name, new_name): first the "if old_name is not None" half *)
+Definition upd_name_old (e : env) (s : schema) (oid : id) (c : cls) (ci : cinfo)
+           (old : option name) : res names3 :=
+  match old with
+  | None => inl (s_name s, s_short s, s_glob s)
+  | Some o =>
+      r <- (if c_qual ci then
+              if amem name_eqb o (s_name s) then inl (adel name_eqb o (s_name s), s_glob s)
+              else inr EKey
+            else
+              if amem ck_eqb (c, o) (s_glob s) then inl (s_name s, adel ck_eqb (c, o) (s_glob s))
+              else inr EKey) ;;
+      if c_sn ci then
+        let key := (c, shortname e o) in
+        match aget ck_eqb key (s_short s) with
+        | None => inr EKey
+        | Some ids =>
+            let ids' := srem oid ids in
+            inl (fst r, (if isnil ids' then adel ck_eqb key (s_short s)
+                         else aset ck_eqb key ids' (s_short s)), snd r)
+        end
+      else inl (fst r, s_short s, snd r)
+  end.
+
+(* ... then the "if new_name is not None" half, on the maps produced by the first *)
+Definition upd_name_new (e : env) (s : schema) (oid : id) (c : cls) (ci : cinfo)
+           (r1 : names3) (new : option name) : res names3 :=
   let nm1 := fst (fst r1) in let sh1 := snd (fst r1) in let gn1 := snd r1 in
   match new with
   | None => inl r1
@@ -208,6 +212,11 @@ Definition upd_name (e : env) (s : schema) (oid : id) (c : cls) (ci : cinfo)
                  else sh1 in
       inl (fst r, sh2, snd r)
   end.
+
+Definition upd_name (e : env) (s : schema) (oid : id) (c : cls) (ci : cinfo)
+           (old new : option name) : res names3 :=
+  r1 <- upd_name_old e s oid c ci old ;;
+  upd_name_new e s oid c ci r1 new.
 
 (* ---- _update_refs_to ---- *)
 Definition refs_add (rf : refsmap) (t : id) (k : rk) (r : id) : refsmap :=
@@ -312,6 +321,22 @@ Definition add_raw (e : env) (s : schema) (i : id) (c : cls) (d : data) : res sc
   _ <- (if c_qual ci then match nmo with None => inr EAttr | Some _ => inl tt end else inl tt) ;;
   inl {| s_data := aset N.eqb i d (s_data s); s_type := aset N.eqb i c (s_type s);
          s_name := fst (fst t); s_short := snd (fst t); s_glob := snd t; s_refs := rf |}.
+
+(* ---- add: schema_reduce() every reducible field, then add_raw ---- *)
+Fixpoint check_unreduced (d : data) (fs : list fld) : res unit :=
+  match fs with
+  | [] => inl tt
+  | f :: fs' =>
+      match aget N.eqb f d with
+      | None => check_unreduced d fs'
+      | Some v => _ <- unreduced_refs v ;; check_unreduced d fs'
+      end
+  end.
+
+Definition add (e : env) (s : schema) (i : id) (c : cls) (d : data) : res schema :=
+  ci <- class_info e c ;;
+  _ <- check_unreduced d (c_refs ci) ;;
+  add_raw e s i c d.
 
 (* ---- update_obj ---- *)
 Record uacc := { u_data : data; u_names : option names3;
@@ -458,7 +483,7 @@ Definition delist (s : schema) (n : name) : res schema :=
 
 (* ---- operations ---- *)
 Inductive op :=
-| OAdd (i : id) (c : cls) (d : data)                          (* add_raw / add *)
+| OAdd (raw : bool) (i : id) (c : cls) (d : data)             (* add_raw (true) / add (false) *)
 | OUpdate (hc : cls) (i : id) (u : list (fld * option value)) (* update_obj(handle, {..}) *)
 | OSet (hc : cls) (i : id) (f : fld) (v : option value)       (* set_obj_field *)
 | OUnset (hc : cls) (i : id) (f : fld)                        (* unset_obj_field *)
@@ -468,7 +493,7 @@ Inductive op :=
 
 Definition step (e : env) (s : schema) (o : op) : res schema :=
   match o with
-  | OAdd i c d => add_raw e s i c d
+  | OAdd raw i c d => if raw then add_raw e s i c d else add e s i c d
   | OUpdate hc i u => update_obj e s hc i u
   | OSet _ i f v => set_field e s i f v
   | OUnset _ i f => unset_field e s i f
@@ -505,10 +530,10 @@ Definition in_top (s : chained) (t : schema) : chained :=
 
 Definition ch_step (e : env) (s : chained) (o : op) : res chained :=
   match o with
-  | OAdd i c d =>
+  | OAdd raw i c d =>
       g <- is_gobj e c ;;
-      if g then r <- add_raw e (ch_glob s) i c d ;; inl (in_glob s r)
-      else r <- add_raw e (ch_top s) i c d ;; inl (in_top s r)
+      if g then r <- step e (ch_glob s) (OAdd raw i c d) ;; inl (in_glob s r)
+      else r <- step e (ch_top s) (OAdd raw i c d) ;; inl (in_top s r)
   | OUpdate hc i u =>
       g <- is_gobj e hc ;;
       if g then r <- update_obj e (ch_glob s) hc i u ;; inl (in_glob s r)
@@ -555,3 +580,39 @@ Fixpoint ch_trace (e : env) (s : chained) (os : list op) : list (option err * ch
       | inr x => (Some x, s) :: ch_trace e s os'
       end
   end.
+
+(* ---- order-preserving serialisation (used only to cross-check the OCaml extraction against
+   vm_compute inside Coq: both must print the same numbers for the same case) ---- *)
+Definition ser_list {A : Type} (f : A -> list N) (l : list A) : list N :=
+  N.of_nat (length l) :: flat_map f l.
+Definition ser_ids (l : list id) : list N := ser_list (fun x => [x]) l.
+Definition ser_name (n : name) : list N :=
+  match n with UName s => [0; s] | QName m s => [1; m; s] end.
+Definition ser_value (v : value) : list N :=
+  match v with
+  | VName n => 0 :: ser_name n
+  | VRefs l => 1 :: ser_ids l
+  | VPlain p => [2; p]
+  end.
+Definition ser_err (x : option err) : N :=
+  match x with
+  | None => 0
+  | Some EExists => 1 | Some EPresent => 2 | Some ENotPresent => 3 | Some EUnknownModule => 4
+  | Some EKey => 5 | Some EInvalidRef => 6 | Some EAssert => 7 | Some ELookup => 8
+  | Some EAttr => 9 | Some EType => 10 | Some ENoClass => 11
+  end.
+Definition ser_schema (s : schema) : list N :=
+  ser_list (fun p => fst p :: ser_list (fun q => fst q :: ser_value (snd q)) (snd p)) (s_data s)
+  ++ ser_list (fun p => [fst p; snd p]) (s_type s)
+  ++ ser_list (fun p => ser_name (fst p) ++ [snd p]) (s_name s)
+  ++ ser_list (fun p => fst (fst p) :: ser_name (snd (fst p)) ++ ser_ids (snd p)) (s_short s)
+  ++ ser_list (fun p => fst (fst p) :: ser_name (snd (fst p)) ++ [snd p]) (s_glob s)
+  ++ ser_list (fun p => fst p :: ser_list (fun q => fst (fst q) :: snd (fst q) :: ser_ids (snd q)) (snd p))
+       (s_refs s).
+Definition ser_trace (e : env) (os : list op) : list N :=
+  flat_map (fun p => ser_err (fst p) :: ser_schema (snd p)) (trace e empty os).
+Definition ser_chained (s : chained) : list N :=
+  ser_schema (ch_base s) ++ ser_schema (ch_top s) ++ ser_schema (ch_glob s).
+Definition ser_ch_trace (e : env) (base : list op) (os : list op) : list N :=
+  flat_map (fun p => ser_err (fst p) :: ser_chained (snd p))
+           (ch_trace e {| ch_base := run e empty base; ch_top := empty; ch_glob := empty |} os).
